@@ -227,7 +227,7 @@ func (t *c09Tracer) take() []c09Snap {
 // ---------------------------------------------------------------- execution
 
 const (
-	c09Ticker    = 2 * time.Millisecond
+	c09Ticker    = time.Millisecond
 	c09CallLimit = 1500 * time.Millisecond
 )
 
@@ -507,12 +507,12 @@ func (p *c09Pair) pushWindow() {
 	before := p.pushDone.Load()
 	mb, _ := json.Marshal(p.mirror())
 	p.openWindow()
-	deadline := time.Now().Add(8 * c09Ticker)
+	deadline := time.Now().Add(20 * c09Ticker)
 	for time.Now().Before(deadline) && p.pushDone.Load() == before {
 		time.Sleep(c09Ticker / 4)
 	}
 	if p.pushDone.Load() != before {
-		d2 := time.Now().Add(8 * c09Ticker)
+		d2 := time.Now().Add(20 * c09Ticker)
 		for time.Now().Before(d2) {
 			ma, _ := json.Marshal(p.mirror())
 			if string(ma) != string(mb) {
@@ -524,7 +524,7 @@ func (p *c09Pair) pushWindow() {
 	}
 	p.closeWindow()
 	// a pushClient call that passed the gate before the window closed
-	time.Sleep(2 * c09Ticker)
+	time.Sleep(3 * c09Ticker)
 }
 
 func (p *c09Pair) ready() bool { return p.cli.Mach.Is1(ssrpc.ClientStates.Ready) }
@@ -684,11 +684,372 @@ func c09Exec(in *C09Input) (obs *c09Obs) {
 
 func init() { register("C09", runC09) }
 
+// ---------------------------------------------------------------- Gallina
+
+func c09CoqSnap(x c09Snap) string {
+	return fmt.Sprintf("{| s_time := %s; s_q := %d; s_m := %d |}", coqNList(x.Time), x.Q, x.M)
+}
+
+func c09CoqSnaps(xs []c09Snap) string {
+	parts := make([]string, len(xs))
+	for i, x := range xs {
+		parts[i] = c09CoqSnap(x)
+	}
+	return "[" + strings.Join(parts, "; ") + "]"
+}
+
+func c09CoqMir(m c09Mirror) string {
+	bs := make([]string, len(m.Active))
+	for i, b := range m.Active {
+		bs[i] = coqBool(b)
+	}
+	return fmt.Sprintf("{| m_t := %s; m_q := %d; m_m := %d; m_a := [%s] |}", coqNList(m.Time), m.Q, m.M,
+		strings.Join(bs, ";"))
+}
+
+func c09Coq(in *C09Input, obs *c09Obs) string {
+	var b strings.Builder
+	sync := !in.NoSchema
+	fmt.Fprintf(&b, "{| k_p := {| p_codec := {| sync_schema := %s; shallow := %s; tracked := %s |}; p_mut := %s |}; ",
+		coqBool(sync), coqBool(in.Shallow), coqNatList(obs.Tracked), coqBool(in.SyncMut))
+	fmt.Fprintf(&b, "k_n := %d; k_norel := %s; k_err := %s; ", in.N+1, coqBool(len(in.Rels) == 0), coqBool(obs.Err != ""))
+	fmt.Fprintf(&b, "k_hello_src := %s; k_hello := %s;\n   k_steps := [", c09CoqSnap(obs.HelloSrc), c09CoqMir(obs.Hello))
+	for i, st := range obs.Steps {
+		if i > 0 {
+			b.WriteString(";\n     ")
+		}
+		var step string
+		switch st.Kind {
+		case "local":
+			step = "OLocal"
+		case "client":
+			step = fmt.Sprintf("(OClient %d %d)", st.ResCli, st.ResSrc)
+		case "race":
+			m2 := c09Mirror{}
+			if st.Mir2 != nil {
+				m2 = *st.Mir2
+			}
+			step = fmt.Sprintf("(ORace %s %s %s %d %d)", coqBool(st.Parked), c09CoqSnaps(st.Trans2), c09CoqMir(m2),
+				st.ResCli, st.ResSrc)
+		case "push":
+			step = "OPush"
+		case "sync":
+			step = "OSync"
+		case "drop":
+			step = fmt.Sprintf("(ODrop %s)", coqBool(st.Rehello))
+		default:
+			step = "ONoop"
+		}
+		fmt.Fprintf(&b, "{| o_step := %s; o_trans := %s; o_src := %s; o_mir := %s; o_timeout := %s; o_pushes := %d |}",
+			step, c09CoqSnaps(st.Trans), c09CoqSnap(st.Src), c09CoqMir(st.Mir), coqBool(st.Timeout), st.Pushes)
+	}
+	fmt.Fprintf(&b, "];\n   k_final_src := %s; k_final := %s; k_final_pushes := %d; k_ready := %s; k_exc := %s |}",
+		c09CoqSnap(obs.FinalSrc), c09CoqMir(obs.FinalMir), obs.FinalPushes, coqBool(obs.CliReady), coqBool(obs.CliErr))
+	return b.String()
+}
+
+// ---------------------------------------------------------------- generators
+
+func c09GenOps(r *Rng, in *C09Input, n int, pLocal, pClient, pPush, pSync, pDrop, pRace int) {
+	muts := []string{"add", "add", "remove", "set"}
+	states := func() []int {
+		k := 1
+		if r.Chance(25) {
+			k = 2
+		}
+		var st []int
+		for i := 0; i < k; i++ {
+			x := r.Intn(in.N)
+			dup := false
+			for _, y := range st {
+				if y == x {
+					dup = true
+				}
+			}
+			if !dup {
+				st = append(st, x)
+			}
+		}
+		return st
+	}
+	total := pLocal + pClient + pPush + pSync + pDrop + pRace
+	for i := 0; i < n; i++ {
+		x := r.Intn(total)
+		switch {
+		case x < pLocal:
+			in.Ops = append(in.Ops, C09Op{Kind: "local", Mut: muts[r.Intn(len(muts))], States: states()})
+		case x < pLocal+pClient:
+			in.Ops = append(in.Ops, C09Op{Kind: "client", Mut: muts[r.Intn(len(muts))], States: states()})
+		case x < pLocal+pClient+pPush:
+			in.Ops = append(in.Ops, C09Op{Kind: "push"})
+		case x < pLocal+pClient+pPush+pSync:
+			in.Ops = append(in.Ops, C09Op{Kind: "sync"})
+		case x < pLocal+pClient+pPush+pSync+pDrop:
+			in.Ops = append(in.Ops, C09Op{Kind: "drop"})
+		default:
+			in.Ops = append(in.Ops, C09Op{Kind: "race", Mut: muts[r.Intn(len(muts))], States: states(),
+				Mut2: muts[r.Intn(len(muts))], States2: states()})
+		}
+	}
+}
+
+func c09GenRels(r *Rng, in *C09Input) {
+	for i := 0; i < in.N; i++ {
+		if !r.Chance(35) {
+			continue
+		}
+		rel := C09Rel{State: i}
+		o := r.Intn(in.N)
+		if o == i {
+			rel.Multi = true
+		} else {
+			switch r.Intn(3) {
+			case 0:
+				rel.Require = []int{o}
+			case 1:
+				rel.Remove = []int{o}
+			default:
+				rel.Add = []int{o}
+			}
+		}
+		in.Rels = append(in.Rels, rel)
+	}
+}
+
+func c09GenPartial(r *Rng, in *C09Input) {
+	// allow / skip lists over 0..N (N = Exception); at least one user state stays tracked
+	if r.Chance(60) {
+		in.UseAllow = true
+		in.Allowed = r.Subset(in.N+1, 60)
+		has := false
+		for _, x := range in.Allowed {
+			if x < in.N {
+				has = true
+			}
+		}
+		if !has {
+			in.Allowed = append([]int{r.Intn(in.N)}, in.Allowed...)
+		}
+	}
+	if !in.UseAllow || r.Chance(40) {
+		in.Skipped = r.Subset(in.N+1, 30)
+	}
+	// keep one tracked user state
+	tr := map[int]bool{}
+	for i := 0; i <= in.N; i++ {
+		tr[i] = !in.UseAllow
+	}
+	for _, x := range in.Allowed {
+		tr[x] = true
+	}
+	keep := -1
+	for i := 0; i < in.N; i++ {
+		if tr[i] {
+			keep = i
+			break
+		}
+	}
+	var sk []int
+	for _, x := range in.Skipped {
+		if x != keep {
+			sk = append(sk, x)
+		}
+	}
+	in.Skipped = sk
+}
+
+func c09Describe(in *C09Input, obs *c09Obs, out *Out) {
+	out.Count("states", fmt.Sprint(in.N))
+	out.Count("schema", map[bool]string{true: "no schema", false: "schema"}[in.NoSchema])
+	out.Count("clocks", map[bool]string{true: "shallow", false: "deep"}[in.Shallow])
+	out.Count("per_mutation_sync", fmt.Sprint(in.SyncMut))
+	out.Count("pushes", map[bool]string{true: "push windows", false: "PushInterval 0"}[in.Pushes])
+	part := "all states"
+	if in.UseAllow && len(in.Skipped) > 0 {
+		part = "allow+skip list"
+	} else if in.UseAllow {
+		part = "allow list"
+	} else if len(in.Skipped) > 0 {
+		part = "skip list"
+	}
+	out.Count("tracked", part)
+	out.Count("relations", fmt.Sprint(len(in.Rels) > 0))
+	out.Count("source_history_before_connect", fmt.Sprint(len(in.Pre) > 0))
+	out.Count("machine_tick", fmt.Sprint(in.MachTick))
+	for _, op := range in.Ops {
+		out.Count("op", op.Kind)
+	}
+	switch {
+	case obs.Err != "":
+		out.Count("outcome", "harness error")
+	case obs.Stuck:
+		out.Count("outcome", "a client call blocked")
+	default:
+		conv := len(obs.FinalMir.Time) > 0
+		out.Count("outcome", map[bool]string{true: "finished", false: "?"}[conv])
+	}
+}
+
+// a push that landed outside a push window (timing): the case is re-run
+func c09Flaky(in *C09Input, obs *c09Obs) bool {
+	for i, st := range obs.Steps {
+		k := in.Ops[i].Kind
+		if (k == "local" || k == "client" || k == "sync" || k == "drop") && st.Pushes != 0 {
+			return true
+		}
+	}
+	return false
+}
+
+func c09ExecStable(in *C09Input) *c09Obs {
+	var obs *c09Obs
+	for try := 0; try < 3; try++ {
+		obs = c09Exec(in)
+		if obs.Err == "" && !c09Flaky(in, obs) {
+			return obs
+		}
+		if obs.Err != "" && !strings.HasPrefix(obs.Err, "setup") {
+			return obs
+		}
+	}
+	return obs
+}
+
+type c09Job struct {
+	kind string
+	in   *C09Input
+	obs  *c09Obs
+}
+
 func runC09(c *Ctx) error {
 	if os.Getenv("C09_PROBE") != "" {
 		return c09Probe(c)
 	}
-	return fmt.Errorf("not implemented")
+	out := NewOut(c.OutDir, "C09",
+		"From Coq Require Import List NArith.\nFrom AMV Require Import Model.RpcCodec Conc.RpcSync Run.EvalC09.\nImport ListNotations.\nOpen Scope N_scope.",
+		"c09case", "check_all", 150)
+
+	var jobs []*c09Job
+	cases, replayOnly := c.loadCases()
+	for _, cc := range cases {
+		var in C09Input
+		must(json.Unmarshal(cc.Input, &in))
+		jobs = append(jobs, &c09Job{kind: "corpus:" + cc.Name, in: &in})
+	}
+	if !replayOnly {
+		r := c.Rng
+		base := func() *C09Input {
+			in := &C09Input{N: r.Range(2, 4), Pushes: true}
+			if r.Chance(40) {
+				c09GenRels(r, in)
+			}
+			if r.Chance(35) {
+				for i := 0; i < r.Range(1, 3); i++ {
+					in.Pre = append(in.Pre, C09Op{Kind: "local", Mut: "add", States: []int{r.Intn(in.N)}})
+				}
+			}
+			return in
+		}
+		// (a) plain configuration: deep, schema, all states, in-order delivery
+		for i := 0; i < c.N(110, 3000); i++ {
+			in := base()
+			in.Pushes = r.Chance(75)
+			c09GenOps(r, in, r.Range(3, 10), 40, 30, 25, 2, 0, 0)
+			jobs = append(jobs, &c09Job{kind: "plain", in: in})
+		}
+		// (b) every configuration dimension
+		for i := 0; i < c.N(150, 4000); i++ {
+			in := base()
+			in.Pushes = r.Chance(75)
+			in.NoSchema = r.Chance(40)
+			in.Shallow = r.Chance(25)
+			in.SyncMut = r.Chance(20)
+			if r.Chance(50) {
+				c09GenPartial(r, in)
+			}
+			if r.Chance(15) {
+				in.MachTick = uint32(r.Range(1, 3))
+			}
+			c09GenOps(r, in, r.Range(3, 10), 35, 30, 25, 8, 0, 0)
+			jobs = append(jobs, &c09Job{kind: "config", in: in})
+		}
+		// (c) fault stream: dropped connections
+		for i := 0; i < c.N(50, 1200); i++ {
+			in := base()
+			in.NoSchema = r.Chance(30)
+			if r.Chance(30) {
+				c09GenPartial(r, in)
+			}
+			if r.Chance(25) {
+				in.MachTick = uint32(r.Range(1, 2))
+			}
+			in.SyncMut = r.Chance(10)
+			c09GenOps(r, in, r.Range(4, 9), 30, 25, 22, 5, 18, 0)
+			jobs = append(jobs, &c09Job{kind: "fault", in: in})
+		}
+		// (d) forced schedules: a reply overtaken by a push
+		for i := 0; i < c.N(40, 1000); i++ {
+			in := base()
+			in.NoSchema = r.Chance(30)
+			in.SyncMut = r.Chance(10)
+			in.Shallow = r.Chance(10)
+			c09GenOps(r, in, r.Range(2, 6), 30, 25, 20, 5, 0, 20)
+			in.Ops = append(in.Ops, C09Op{Kind: "race", Mut: "add", States: []int{r.Intn(in.N)},
+				Mut2: "add", States2: []int{r.Intn(in.N)}})
+			c09GenOps(r, in, r.Range(0, 3), 35, 30, 30, 5, 0, 0)
+			jobs = append(jobs, &c09Job{kind: "race", in: in})
+		}
+		// (e) malformed / degenerate: unknown states for the client, overlapping lists
+		for i := 0; i < c.N(15, 300); i++ {
+			in := base()
+			in.NoSchema = r.Chance(60)
+			in.UseAllow = true
+			in.Allowed = []int{r.Intn(in.N)}
+			if r.Chance(50) {
+				in.Skipped = []int{(in.Allowed[0] + 1) % in.N, in.N}
+			}
+			c09GenOps(r, in, r.Range(3, 8), 35, 35, 25, 5, 0, 0)
+			jobs = append(jobs, &c09Job{kind: "degenerate", in: in})
+		}
+	}
+
+	// execute in parallel (every pair is independent), emit in order
+	workers := 12
+	if v := os.Getenv("C09_WORKERS"); v != "" {
+		fmt.Sscan(v, &workers)
+	}
+	var wg sync.WaitGroup
+	ch := make(chan *c09Job)
+	for w := 0; w < workers; w++ {
+		wg.Add(1)
+		go func() {
+			defer wg.Done()
+			for j := range ch {
+				j.obs = c09ExecStable(j.in)
+			}
+		}()
+	}
+	for _, j := range jobs {
+		ch <- j
+	}
+	close(ch)
+	wg.Wait()
+
+	for _, j := range jobs {
+		c09Describe(j.in, j.obs, out)
+		trivial := len(j.in.Ops) == 0 || j.obs.Err != ""
+		out.Add(j.kind, j.in, j.obs, c09Coq(j.in, j.obs), trivial, "")
+	}
+	rule := "corpus first; streams: plain (deep, schema, all states), config (schema/no schema x allow/skip lists x " +
+		"shallow x per-mutation sync x PushInterval 0/windows x MachineTick), fault (connection cut + reconnect), " +
+		"race (reply parked at the reply-computed point while a push is produced and delivered), degenerate. " +
+		"Every case: a fresh source + Server + Client over 127.0.0.1 through a proxy; steps local/client/push/sync/drop/race; " +
+		"distinct = distinct (input, observation); non-trivial = at least one step and the pair came up"
+	if replayOnly {
+		rule = "replay"
+	}
+	out.Close(rule, nil)
+	return nil
 }
 
 func c09Probe(c *Ctx) error {
